@@ -223,23 +223,18 @@ Section Main.
   Lemma nth_error_In' {A} (l : list A) i a : nth_error l i = Some a -> In a l.
   Proof. apply nth_error_In. Qed.
 
-  Definition sel_of (a : expr) : option (list matcher) :=
-    match a with ESel ms => Some ms | EMatrix (ESel ms) => Some ms | _ => None end.
-
   Lemma absent_labels_sel_of a :
-    match a with EParen _ => False | _ => True end ->
-    absent_labels a = match sel_of a with Some ms => fst (fold_left absent_step ms ([], [])) | None => [] end.
-  Proof.
-    destruct a; intros H; try reflexivity. destruct H.
-  Qed.
+    absent_labels a = match sel_of_arg a with Some ms => fst (fold_left absent_step ms ([], [])) | None => [] end.
+  Proof. reflexivity. Qed.
 
-  Lemma sel_of_walk a ms : sel_of a = Some ms -> exists s0, In s0 (walk a) /\ s_selector s0 = Some ms.
+  Lemma sel_of_walk : forall a ms, sel_of_arg a = Some ms -> exists s0, In s0 (walk a) /\ s_selector s0 = Some ms.
   Proof.
-    destruct a; try discriminate.
-    - intros H. inversion H; subst. exists (sel_src ms). split; [left; reflexivity | apply sel_src_selector].
-    - destruct a; try discriminate. intros H. inversion H; subst.
-      exists (set_returns (sel_src ms) VMatrix). split; [left; reflexivity|].
+    unfold sel_of_arg. induction a using expr_ind'; intros ms0 H0; cbn [strip_parens] in H0; try discriminate.
+    - inversion H0; subst. exists (sel_src ms0). split; [left; reflexivity | apply sel_src_selector].
+    - destruct a; try discriminate. inversion H0; subst.
+      exists (set_returns (sel_src ms0) VMatrix). split; [left; reflexivity|].
       cbn [s_selector set_returns]. apply sel_src_selector.
+    - cbn [walk_node]. apply IHa. exact H0.
   Qed.
 
   Lemma call_ret f ats args s :
@@ -295,17 +290,11 @@ Section Main.
       + intros s Hin. unfold ret_ok. rewrite (Hret s Hin). reflexivity.
       + intros x Hx. destruct (series_of C) eqn:Eser; apply Some_true_inj in Hl.
         * destruct (seteq_ls_l _ _ Hl x Hx) as [y [[<-|[]] He]].
-          assert (Hnp : match a with EParen _ => False | _ => True end).
-          { destruct a; try exact I. apply andb_true_iff in Hwc. destruct Hwc as [_ Hwc]. discriminate. }
-          rewrite (absent_labels_sel_of a Hnp) in He. destruct (sel_of a) as [ms|] eqn:Eso.
+          rewrite (absent_labels_sel_of a) in He. destruct (sel_of_arg a) as [ms|] eqn:Eso.
           -- destruct (sel_of_walk a ms Eso) as [s0 [Hs0 Hsel]].
-             apply andb_true_iff in Hwc. destruct Hwc as [Hwc Hnn].
-             assert (Hnd : nodup_names ms = true).
-             { destruct a; try discriminate; [inversion Eso; subst; exact Hnn|].
-               destruct a; try discriminate. inversion Eso; subst. exact Hnn. }
              exists (call_src f [a] (arg0_of fmod fpow [a]) s0). split.
              ++ apply (walk_call_intro fmod fpow f ats [a] 0 a s0); auto.
-             ++ intros l Hl'. apply (call_src_absent f a _ s0 ms l Hk Eso Hnd).
+             ++ intros l Hl'. apply (call_src_absent f a _ s0 ms l Hk Eso).
                 ** eapply walk_nd; eauto.
                 ** apply has_get. rewrite <- He. apply has_get. exact Hl'.
           -- destruct (walk_call_exists fmod fpow f ats [a]) as [s Hs]. exists s. split; auto.
